@@ -122,7 +122,7 @@ TEXT = {
         "technique": "runtime monitoring: forced interleavings via sync points, lost-wake-up detector, porcupine linearizability check, race detector",
     },
     "C16": {
-        "text": "Exploration of schedules: the connectedness tracker (updater sequences of <= 3 associate/update operations, 1-2 waiters, cancellation), the Notify primitive, the lifecycle manager and the discovery peer cache run on sync-point-instrumented sources under un-perturbed, jitter and pair plans; "
+        "text": "Exploration of schedules: the connectedness tracker (updater sequences of <= 3 associate/update operations, 1-2 waiters, cancellation), the Notify primitive (also waited on again after a wait that raced a cancellation), two waiters of one group of which one is cancelled before the updates, the lifecycle manager and the discovery peer cache run on sync-point-instrumented sources under un-perturbed, jitter and pair plans; "
                 "a deadlock detector (all participants blocked, one in a mutex acquire) and a missed-update detector (updater finished, waiter parked, reference state differs from what the waiter saw) decide at quiescence defined by goroutine states; returned lists are compared with the entries that changed; cancellation must return negative.",
         "note": "The statement's static lock-order clause is outside this family; its dynamic counterpart is the deadlock detector under forced orderings. Pair forcing + jitter, not all interleavings.",
         "technique": "runtime monitoring: forced interleavings via sync points with deadlock and missed-update detectors at goroutine-state quiescence",
